@@ -586,7 +586,8 @@ def check_C10(ctx):
     return run_message_property(ctx, dict(
         theorems=["C10_known_untouched", "C10_retag", "C10_skip_varint"],
         suites=lambda c: [("decv", ["decv", c.seed + 7, _n(c, 2500, 60000)]), ("decb", ["decb", c.seed + 7, _n(c, 1500, 30000)])],
-        prop={"dec": lambda r: r["ist"] != "PANIC" and (r["tag"] != "valid" or (r["ist"] == "ok" and r["flags"].get("c02") == "ok"))},
+        prop={"dec": lambda r: r["ist"] != "PANIC" and (r["ist"] != "ok" or r["flags"].get("wf") == "1") and
+              (r["tag"] != "valid" or (r["ist"] == "ok" and r["flags"].get("c02") == "ok"))},
         tie={"dec": tie_dec_val}, spec={"dec": spec_dec}, nontrivial=nontrivial_any,
         rule=DEC_RULE + "; unknown fields/groups injected at every level (also into capturing messages: captured bytes compared with the reference's unknown fields, re-tagged); malformed stream must give an error, never a crash"))
 
